@@ -123,6 +123,8 @@ def run(rep):
     core.import_rules(rep, "c02", {"T-CONJ"})
     core.import_rules(rep, "c06", {"TRI-MATRIX", "TRI-OR", "TRI-AND"})
     core.import_rules(rep, "c10", {"NESTED-MODEL", "T-NESTED"})
+    # rows of the matrix are built member by member: nothing of one member may end up in another member's row, whatever their order
+    core.import_rules(rep, "c03", {"L-MATRIX"}, key_prefixes=("L-MATRIX/lookup-", "L-MATRIX/one-cell-per-column", "L-MATRIX/cell-"))
     if rep.tier == "thorough":
         import poscontrol
         poscontrol.droppers(rep)
